@@ -76,6 +76,13 @@ Alphabet ==
            Ph("do", <<L(3), L(0), Wd("do")>>), Ph("loop", <<Wd("loop")>>),
            Ph("def", <<Wd(":"), Wd("f")>>), Ph("enddef", <<Wd(";")>>), Ph("call", <<Wd("f")>>),
            Ph("var", <<Wd("var"), Wd("v")>>), Ph("var", <<Wd("var"), Wd("u")>>), Ph("vref", <<Wd("v")>>) >>
+    [] Frag = "blame" ->
+        << Plain(<<L(1)>>), Plain(<<L(0)>>), Plain(<<Wd("drop")>>), Plain(<<Wd("+")>>), Plain(<<Wd("/")>>), Plain(<<Wd("foo")>>), Plain(<<Wd("I")>>),
+           Ph("if", <<Wd("true"), Wd("if")>>), Ph("if", <<Wd("if")>>), Ph("else", <<Wd("else")>>), Ph("then", <<Wd("then")>>),
+           Ph("do", <<L(2), L(0), Wd("do")>>), Ph("loop", <<Wd("loop")>>),
+           Ph("def", <<Wd(":"), Wd("f")>>), Ph("enddef", <<Wd(";")>>), Ph("call", <<Wd("f")>>),
+           Ph("beginU", <<Wd("begin")>>), Ph("until", <<Wd("until")>>),
+           Ph("local", <<Wd("local"), Wd("x")>>), Ph("lref", <<Wd("x")>>) >>
     [] Frag = "mix" ->
         << Plain(<<L(1)>>), Plain(<<L(0)>>), Plain(<<Wd("dup")>>), Plain(<<Wd("+")>>), Plain(<<Wd("I")>>), Plain(<<Wd("print")>>),
            Ph("vec", <<Wd("[")>>), Ph("endvec", <<Wd("]")>>), Plain(<<Wd("depth")>>), Plain(<<Wd("length")>>),
